@@ -46,7 +46,20 @@ Lists05 ==
   [o : 1..4, syms : UNION {[1..m -> 1..NSym] : m \in 0..MaxLen5}]
 Lists05Long ==
   [o : 1..4, syms : UNION {[1..m -> {1, 2, 3}] : m \in (MaxLen5 + 1)..(IF Deep THEN 7 ELSE 6)}]
-Rule05(cc) == Op(CtlOps[cc.o], [j \in DOMAIN cc.syms |-> Sym(cc.syms[j], j)])
+\* else-if CHAINS (session 5): if [a.., if' [b.., if [c..]]] - a nested `if` in the LAST position of its parent
+\* (the else position when the parent's prefix is even, a then-value or a lone operand otherwise). Prefixes of 0..2
+\* truthy / falsy probes, the innermost list of 0..3 operands over truthy probe / falsy probe / parse-poison; the
+\* outer and the middle link use the two aliases crosswise. What an implementation that flattens or splices
+\* else-if ladders gets wrong shows here: which operands are entered, in which order, and what is returned.
+Leaf05(s, pos) == Sym(IF s = 3 THEN 4 ELSE s, pos)
+Chains05 ==
+  [o : 1..2, a : UNION {[1..k -> 1..2] : k \in 0..2}, b : UNION {[1..k -> 1..2] : k \in 0..2},
+   cc : UNION {[1..n -> 1..3] : n \in 0..3}]
+ChainRule(x) ==
+  LET inner == Op(K_if, [j \in DOMAIN x.cc |-> Leaf05(x.cc[j], 4 + j)])
+      mid == Op(CtlOps[3 - x.o], [j \in DOMAIN x.b |-> Leaf05(x.b[j], 2 + j)] \o <<inner>>)
+  IN Op(CtlOps[x.o], [j \in DOMAIN x.a |-> Leaf05(x.a[j], j)] \o <<mid>>)
+Rule05(cc) == IF "syms" \in DOMAIN cc THEN Op(CtlOps[cc.o], [j \in DOMAIN cc.syms |-> Sym(cc.syms[j], j)]) ELSE ChainRule(cc)
 
 \* ---------------- corpus-driven families
 R04 == Corpus("R04")
@@ -62,7 +75,7 @@ D14 == Corpus("D14")
 QOps == <<K_all, K_some, K_none>>
 
 InFamily(x) ==
-  CASE Fam = "C05" -> x \in Lists05 \/ x \in Lists05Long
+  CASE Fam = "C05" -> x \in Lists05 \/ x \in Lists05Long \/ x \in Chains05
     [] Fam = "C04" -> x \in [r : 1..Len(R04), d : 1..Len(D04)]
     [] Fam = "C13" -> \/ x \in [op : {"map", "filter"}, co : 1..Len(CO13), ex : 1..Len(EX13), ini : {0}, d : {1}]
                       \/ x \in [op : {"reduce"}, co : {1, 3, 6, 8, 10, 12, 15}, ex : 1..Len(RX13), ini : {1, 4, 6, 8}, d : {1}]
